@@ -21,13 +21,17 @@ def live_order(built):
     return [rev[id(e)] for e in built.net.elements]
 
 
-def arg_groups(desc, order, vals):
+def arg_groups(desc, order, vals, fixed=()):
+    """fixed: (element id, variable) pairs that were supplied as numbers to the symbolic step: they are
+    not arguments of the function."""
     lay = var_layout(desc)
     groups = {"states": [], "actions": [], "disturbances": []}
     byname = {"states": {}, "actions": {}, "disturbances": {}}
     for grp in groups:
         for eid in order:
             for name, n in lay[eid][grp]:
+                if (eid, name) in fixed:
+                    continue
                 v = vals[eid][name]
                 v = list(v) if isinstance(v, list) else [v]
                 groups[grp].append((eid, name, v))
@@ -35,10 +39,10 @@ def arg_groups(desc, order, vals):
     return groups, byname
 
 
-def build_args(desc, order, vals, compact, params=None):
+def build_args(desc, order, vals, compact, params=None, fixed=()):
     import casadi as cs
 
-    groups, byname = arg_groups(desc, order, vals)
+    groups, byname = arg_groups(desc, order, vals, fixed)
     G3 = ("states", "actions", "disturbances")
     if compact <= 0:
         args = [cs.DM(v) for grp in G3 for _, _, v in groups[grp]]
@@ -60,9 +64,9 @@ def build_args(desc, order, vals, compact, params=None):
     return args, names, groups, byname
 
 
-def call_positional(F, desc, order, vals, compact, more_out=False, params=None):
+def call_positional(F, desc, order, vals, compact, more_out=False, params=None, fixed=()):
     """Returns (x_next {id:{name:list}}, q {link:list} | None, q_o {origin:float} | None)."""
-    args, names, groups, byname = build_args(desc, order, vals, compact, params)
+    args, names, groups, byname = build_args(desc, order, vals, compact, params, fixed)
     out = F(*args)
     out = list(out) if isinstance(out, (list, tuple)) else [out]
     out = [np.asarray(o, dtype=float).ravel().tolist() for o in out]
